@@ -120,17 +120,22 @@ def _check_graph(case, A, prefix=""):
     ctx = prefix + "A=%s" % A.tolist()
     what = case.get("what", ["basic", "reach", "paths", "comp", "sep"])
     nodes = case.get("nodes", list(range(p)))
+    from props.gcommon import npint
+    salt = int(np.count_nonzero(A)) + p
+
+    def ni(v, extra=0):                   # a node index as callers have it: int, or np.int64 / np.int32 out of np.where
+        return npint(v, salt + 5 * v + extra)
 
     if "basic" in what:
         for i in nodes:
             for name, fn, want in (("pa", utils.pa, t[i]), ("ch", utils.ch, d[i]), ("neighbors", utils.neighbors, u[i]),
                                    ("adj", utils.adj, d[i] | t[i] | u[i])):
-                got = _as_set(must(lib(fn, i, A), name), name)
+                got = _as_set(must(lib(fn, ni(i), A), name), name)
                 if got != set(G.bits(want)):
                     raise Violation("%s_wrong" % name, "%s(%d) = %s, expected %s; %s" % (name, i, sorted(got), G.bits(want), ctx))
         for y in nodes:
             for x in nodes:
-                got = _as_set(must(lib(utils.na, y, x, A), "na"), "na")
+                got = _as_set(must(lib(utils.na, ni(y), ni(x, 1), A), "na"), "na")
                 want = u[y] & (d[x] | t[x] | u[x])
                 if got != set(G.bits(want)):
                     raise Violation("na_wrong", "na(%d,%d) = %s, expected %s; %s" % (y, x, sorted(got), G.bits(want), ctx))
@@ -139,11 +144,11 @@ def _check_graph(case, A, prefix=""):
         anc = G.transpose(desc)
         for i in nodes:
             for name, fn in (("ancestors", utils.ancestors), ("an", utils.an)):
-                got = _as_set(must(lib(fn, i, A), name), name)
+                got = _as_set(must(lib(fn, ni(i, 2), A), name), name)
                 if got != set(G.bits(anc[i])):
                     raise Violation("%s_wrong" % name, "%s(%d) = %s, expected %s; %s" % (name, i, sorted(got), G.bits(anc[i]), ctx))
             for name, fn in (("descendants", utils.descendants), ("desc", utils.desc)):
-                got = _as_set(must(lib(fn, i, A), name), name)
+                got = _as_set(must(lib(fn, ni(i, 3), A), name), name)
                 want = set(G.bits(desc[i])) | {i}
                 if got != want:
                     raise Violation("%s_wrong" % name, "%s(%d) = %s, expected %s; %s" % (name, i, sorted(got), sorted(want), ctx))
@@ -160,7 +165,7 @@ def _check_graph(case, A, prefix=""):
                 if a == b:
                     continue
                 want = _paths(rows, d, u, a, b)
-                res = must(lib(utils.semi_directed_paths, a, b, A), "semi_directed_paths")
+                res = must(lib(utils.semi_directed_paths, ni(a, b), ni(b, a + 1), A), "semi_directed_paths")
                 got = [tuple(int(v) for v in path) for path in res]
                 if len(want) >= 2:
                     multi = True
@@ -171,13 +176,13 @@ def _check_graph(case, A, prefix=""):
     if "comp" in what:
         comps = _components(u)
         for i in nodes:
-            got = _as_set(must(lib(utils.chain_component, i, A), "chain_component"), "chain_component")
+            got = _as_set(must(lib(utils.chain_component, ni(i, 4), A), "chain_component"), "chain_component")
             if got != comps[i]:
                 raise Violation("component_wrong", "chain_component(%d) = %s, expected %s; %s" % (i, sorted(got), sorted(comps[i]), ctx))
     if "sep" in what:
         for (Sset, Aset, Bset) in _triples(case, p):
             Sset, Aset, Bset = set(Sset), set(Aset), set(Bset)
-            o = lib(utils.separates, set(Sset), set(Aset), set(Bset), A)
+            o = lib(utils.separates, {ni(v, 1) for v in Sset}, {ni(v, 2) for v in Aset}, {ni(v, 3) for v in Bset}, A)
             if (Sset & Aset) or (Sset & Bset) or (Aset & Bset):
                 must_raise(o, ValueError, "separates(overlapping sets)")
                 lab.append("sep_overlap")
